@@ -126,6 +126,27 @@ theorem rangeWrite_perm {α β : Type} (f : String → α → β) {m m' : AL α}
   have hn' : (akeys m').Nodup := (hp.map Prod.fst).nodup_iff.mpr hn
   rw [find_rangeWrite f m' hn', find_rangeWrite f m hn, find_perm hn hp]
 
+/-- **range over a map and update it in place under the same key** (`enforceUnicity`, `convertToStringKeysRecursive`,
+the normalisation loops, `services[name] = merged`): every entry is replaced by `f k v`, whatever the order -/
+theorem rangeUpdate_pointwise {α : Type} (f : String → α → α) (m : AL α) (hn : (akeys m).Nodup) (k : String) :
+    find k (rangeUpdate f m) = (find k m).map (f k) := by
+  rw [rangeUpdate_eq_map f m hn, find_map_entries]
+
+theorem rangeUpdate_perm {α : Type} (f : String → α → α) {m m' : AL α} (hn : (akeys m).Nodup) (hp : m'.Perm m) :
+    (rangeUpdate f m').Perm (rangeUpdate f m) ∧ ∀ k, find k (rangeUpdate f m') = find k (rangeUpdate f m) := by
+  have hn' : (akeys m').Nodup := (hp.map Prod.fst).nodup_iff.mpr hn
+  refine ⟨?_, fun k => ?_⟩
+  · rw [rangeUpdate_eq_map f m hn, rangeUpdate_eq_map f m' hn']; exact hp.map _
+  · rw [rangeUpdate_pointwise f m' hn', rangeUpdate_pointwise f m hn, find_perm hn hp]
+
+/-- **range over a map and return the first error** (`validation.check`, `Interpolate`, `HostsList.cleanup`, every
+`if err != nil { return err }` inside a map loop): *whether* an error is returned does not depend on the order.
+(*Which* one is returned does — `Neg.rangeCheck_which_error_order_dependent` — which is why error texts are never
+part of the observation.) -/
+theorem rangeCheck_perm {α ε : Type} (f : String → α → Option ε) {m m' : AL α} (hp : m'.Perm m) :
+    (rangeCheck f m').isSome = (rangeCheck f m).isSome := by
+  rw [rangeCheck_isSome, rangeCheck_isSome, hp.any_eq]
+
 /-- `override.convertIntoSequence` returns the same sequence for every iteration order of the mapping -/
 theorem intoSeq_perm {kvs kvs' : KVs} (hp : kvs'.Perm kvs) : intoSeq (.map kvs') = intoSeq (.map kvs) :=
   intoSeq_map_perm hp
